@@ -520,8 +520,12 @@ class Exec:
                 and st.targets[0].id in getattr(self.top, "symbolic_dicts", {}) and self.cur_func is not None \
                 and self.cur_func.key == self.top.key:
             # a dictionary filled in a loop of symbolic length: unbounded symbolic key set (declared by the contract: key sort)
-            from .dicts import SymMap
-            v = SymMap.empty(st.targets[0].id, self._sym_sort(self.top.symbolic_dicts[st.targets[0].id]))
+            from .dicts import SymMap, SymListDict
+            kind_ = self.top.symbolic_dicts[st.targets[0].id]
+            if kind_ == "pairlists":
+                v = SymListDict(st.targets[0].id)      # (int, int) -> list of (number, int): see pyvc/dicts.py for the abstraction
+            else:
+                v = SymMap.empty(st.targets[0].id, self._sym_sort(kind_))
         if type(v).__name__ == "PySet" and not v.items and len(st.targets) == 1 and isinstance(st.targets[0], ast.Name) and self.top is not None \
                 and st.targets[0].id in getattr(self.top, "symbolic_sets", {}) and self.cur_func is not None and self.cur_func.key == self.top.key:
             # a set filled in a loop of symbolic length (declared by the contract: element sort)
@@ -629,6 +633,8 @@ class Exec:
                     if k is None:
                         self.raise_("KeyError", t, "safety")
                     del base[k]
+                elif type(base).__name__ == "ListView":
+                    base.delitem(self, idx, t)
                 else:
                     raise Unsupported("del subscript")
             elif isinstance(t, ast.Attribute):
@@ -951,7 +957,11 @@ class Exec:
                 m_.cell.term, m_.cell.nan = sn_.cell.term, sn_.cell.nan
                 self.owner_frame(n, fr).locals[n] = old
                 continue
-            if type(old).__name__ == "SymSet" and "$live_" + n in pre:
+            if type(old).__name__ in ("SymListDict", "ListView") and "$live_" + n in pre:
+                live = pre["$live_" + n]
+                (live.d if type(live).__name__ == "ListView" else live).restore(old.d if type(old).__name__ == "ListView" else old)
+                self.owner_frame(n, fr).locals[n] = live
+            elif type(old).__name__ == "SymSet" and "$live_" + n in pre:
                 live = pre["$live_" + n]
                 live.member, live.count = old.member, old.count
                 self.owner_frame(n, fr).locals[n] = live
@@ -1010,6 +1020,14 @@ class Exec:
                     self.assume(d >= 0)
                 return NdArr.fresh(n, dims, cur.kind, nan=cur.cell.nan is not None)
             return self._havoc_cell(cur, n)
+        if type(cur).__name__ == "SymListDict":
+            cur.havoc(self)
+            return cur
+        if type(cur).__name__ == "ListView":
+            # an alias of one list of a dictionary of lists: what is written through it is written into the dictionary
+            if not cur.detached:
+                cur.d.havoc(self)
+            return Unbound(n) if rebind else cur
         if type(cur).__name__ == "SymSet":
             cur.member = z3.Const(fresh_name(n + "_in"), cur.member.sort())
             cur.count = self.int(n + "_count")
@@ -1429,6 +1447,8 @@ class Exec:
             return len(v.items) > 0
         if isinstance(v, SList):
             return v.length > 0
+        if type(v).__name__ == "ListView":
+            return v.size(self) > 0
         if isinstance(v, SymDict):
             return v.size() > 0
         if is_sym(v):
@@ -1546,6 +1566,8 @@ class Exec:
         out = {}
         for n, v in zip(names, pos):
             out[n] = v
+        if a.vararg is not None:
+            out[a.vararg.arg] = tuple(pos[len(names):])
         for k, v in kwargs.items():
             out[k] = v
         fr = Frame(func, func.module)
@@ -1926,6 +1948,16 @@ def mutated_names(body):
                 b = base_name(n.func.value)
                 if b:
                     out.add(b)
+            if isinstance(n, ast.Delete):
+                for t in n.targets:
+                    if isinstance(t, (ast.Subscript, ast.Attribute)):
+                        b = base_name(t)
+                        if b:
+                            out.add(b)
+            if isinstance(n, ast.Call) and n.args and ast.unparse(n.func).split(".")[-1] in ("insort", "insort_left", "insort_right", "heappush", "heappop", "shuffle"):
+                b = base_name(n.args[0])      # functions of the standard library that write into their first argument
+                if b:
+                    out.add(b)
     return out
 
 
@@ -2004,7 +2036,7 @@ def snapshot_env(fr):
         for k, v in f.locals.items():
             if k in snap:
                 continue
-            if isinstance(v, (NdArr, SList)) or type(v).__name__ in ("SymMap", "SymSet"):
+            if isinstance(v, (NdArr, SList)) or type(v).__name__ in ("SymMap", "SymSet", "SymListDict", "ListView"):
                 snap[k] = v.snapshot()
                 snap["$live_" + k] = v
             elif isinstance(v, list):
